@@ -7,7 +7,7 @@ import common
 from common import Check
 
 
-def run_component(prop, level, component_run, rule, floor=None, assumptions=None, bins=("aiken-run",), extra=None, argv=None, **finish_kw):
+def run_component(prop, level, component_run, rule, floor=None, assumptions=None, bins=("aiken-run",), extra=None, argv=None, demote=None, **finish_kw):
     a = common.parse_args(argv if argv is not None else sys.argv[1:])
     if not a.no_build:
         common.build(list(bins))
@@ -28,9 +28,15 @@ def run_component(prop, level, component_run, rule, floor=None, assumptions=None
 
     counts = {}
     for key, n in r.get("violation_counts", {}).items():
+        if demote and demote(canon(key)):
+            continue
         counts[canon(key)] = counts.get(canon(key), 0) + n
     for key, witness in r.get("violations", []):
         key = canon(key)
+        if demote and demote(key):
+            # an observation the oracle cannot confirm in this sandbox: reported, never a verdict
+            chk.inconc("unconfirmed:" + key)
+            continue
         seen[key] = seen.get(key, 0) + 1
         chk.violation(key, witness)
     # violations beyond the witnesses kept by the component still count for known keys
